@@ -523,6 +523,9 @@ def merge_cases(draw):
     case["assign"] = draw(st.integers(0, 9999))
     case["perms"] = [draw(st.one_of(st.none(), st.integers(0, 999))) for _ in range(k)]
     case["shifts"] = [draw(st.integers(0, 2)) for _ in range(k)]
+    # direction of the shifts: along x, or out of the plane of a 2D mesh (the shifted pieces then live in 3D while the unshifted
+    # ones are planar, and nodes of different pieces differ by their z only)
+    case["shift_axis"] = draw(st.sampled_from(["x", "x", "z"]))
     case["dup"] = draw(st.integers(0, 3)) == 0  # last mesh = copy of the first (fully coincident)
     case["mergePoints"] = draw(st.integers(0, 3)) > 0
     case["unique"] = draw(st.integers(0, 3)) > 0
@@ -597,15 +600,18 @@ def check_merge(case, rec):
     else:
         k = min(int(case["k"]), gl.Ne)
         pieces = split_pieces(gl, k, case["assign"])
+        zshift = case.get("shift_axis") == "z"
+        shift_of = (lambda n: (0.0, 0.0, SHIFT * n)) if zshift else (lambda n: (SHIFT * n, 0.0, 0.0))
+        rec.label("merge:shift_" + ("z" if zshift else "x"))
         for p in range(k):
             sh = int(case["shifts"][p])
-            sub, l2g = cp.submesh(gl, pieces[p], case["perms"][p], (SHIFT * sh, 0.0, 0.0))
+            sub, l2g = cp.submesh(gl, pieces[p], case["perms"][p], shift_of(sh))
             if sub is None:
                 continue
             items.append((sub, 0, sh, l2g, {t: v for t, v in pieces[p].items() if np.size(v)}))
         if case.get("dup") and 1 <= len(items) < 4:
             sub0, s0, sh0, l2g0, rows0 = items[0]
-            sub, l2g = cp.submesh(gl, rows0, 12345, (SHIFT * sh0, 0.0, 0.0))
+            sub, l2g = cp.submesh(gl, rows0, 12345, shift_of(sh0))
             items.append((sub, 0, sh0, l2g, rows0))
         if case.get("recipe2") and len(items) < 4:
             g2 = cp.build(case["recipe2"], None)[0]
